@@ -704,6 +704,122 @@ func genC06(c *Ctx) {
 	c06GenKeyring(c)
 	c06GenPseudo(c)
 	c06GenTwin(c)
+	c06GenDupVia(c)
+}
+
+// F. the member join_authorised_via_users_server repeated / under a case variant / with null and
+// non-string occurrences (repair F49): the signature check must demand the server of the user the
+// AUTH RULES read (encoding/json into MemberContent: folded names, last string occurrence, null
+// ignored, other values unparseable).  twin = the same event without any such member.
+func c06GenDupVia(c *Ctx) {
+	const via = `"join_authorised_via_users_server"`
+	const viaCap = `"Join_authorised_via_users_server"`
+	const viaUp = `"JOIN_AUTHORISED_VIA_USERS_SERVER"`
+	const viaLongS = "\"join_authori\u017fed_via_users_server\""
+	x, v := `"@x:x.example"`, `"@admin:v.example"`
+	type fam struct {
+		name    string
+		members []string
+	}
+	fams := []fam{
+		{"single-exact", []string{via + ":" + v}},
+		{"single-capital", []string{viaCap + ":" + v}},
+		{"single-upper", []string{viaUp + ":" + v}},
+		{"single-long-s", []string{viaLongS + ":" + v}},
+		{"twice-x-then-v", []string{via + ":" + x, via + ":" + v}},
+		{"twice-v-then-x", []string{via + ":" + v, via + ":" + x}},
+		{"exact-x-then-capital-v", []string{via + ":" + x, viaCap + ":" + v}},
+		{"capital-v-then-exact-x", []string{viaCap + ":" + v, via + ":" + x}},
+		{"capital-x-then-exact-v", []string{viaCap + ":" + x, via + ":" + v}},
+		{"exact-x-then-long-s-v", []string{via + ":" + x, viaLongS + ":" + v}},
+		{"long-s-v-then-exact-x", []string{viaLongS + ":" + v, via + ":" + x}},
+		{"upper-x-then-capital-v", []string{viaUp + ":" + x, viaCap + ":" + v}},
+		{"v-then-null", []string{via + ":" + v, via + ":null"}},
+		{"null-then-v", []string{via + ":null", via + ":" + v}},
+		{"only-null", []string{via + ":null"}},
+		{"v-then-capital-null", []string{via + ":" + v, viaCap + ":null"}},
+		{"x-null-v", []string{via + ":" + x, via + ":null", via + ":" + v}},
+		{"x-v-null", []string{via + ":" + x, via + ":" + v, viaCap + ":null"}},
+		{"v-then-empty", []string{via + ":" + v, via + `:""`}},
+		{"empty-then-v", []string{via + `:""`, via + ":" + v}},
+		{"only-empty", []string{via + `:""`}},
+		{"v-then-number", []string{via + ":" + v, via + ":5"}},
+		{"number-then-v", []string{via + ":5", via + ":" + v}},
+		{"v-then-capital-object", []string{via + ":" + v, viaCap + `:{"a":"@x:x.example"}`}},
+		{"true-then-v", []string{viaCap + ":true", via + ":" + v}},
+		{"v-then-array", []string{via + ":" + v, via + `:["@x:x.example"]`}},
+		{"v-then-no-colon", []string{via + ":" + v, via + `:"@nocolon"`}},
+		{"no-sigil-then-v", []string{via + `:"x:x.example"`, via + ":" + v}},
+		{"v-then-no-sigil", []string{via + ":" + v, viaCap + `:"x:x.example"`}},
+		{"three-x-v-x", []string{via + ":" + x, viaCap + ":" + v, via + ":" + x}},
+		{"three-v-x-v", []string{viaCap + ":" + v, via + ":" + x, viaUp + ":" + v}},
+	}
+	type kind struct {
+		name    string
+		sk      string
+		members []string // the twin's content members, raw
+	}
+	kinds := []kind{
+		{"join", "@alice:a.example", []string{`"displayname":"A"`, `"membership":"join"`}},
+		{"invite", "@bob:c.example", []string{`"membership":"invite"`}},
+		{"knock", "@alice:a.example", []string{`"membership":"knock"`, `"reason":"r"`}},
+	}
+	valids := [][]string{
+		{"a.example", "b.example", "c.example", "x.example", "v.example"},
+		{"a.example", "b.example", "c.example", "x.example"},
+		{"a.example", "b.example", "c.example", "v.example"},
+	}
+	for vi, ver := range c06Versions {
+		for ki, k := range kinds {
+			mk := func(content string) []byte {
+				m := map[string]interface{}{
+					"room_id": c06RoomID(ver), "sender": "@alice:a.example", "type": "m.room.member", "state_key": k.sk,
+					"content": json.RawMessage(content), "origin_server_ts": 1700000000888, "depth": 7,
+					"prev_events": []interface{}{}, "auth_events": []interface{}{},
+				}
+				if ver == "1" || ver == "2" {
+					m["event_id"] = "$dup:b.example"
+				}
+				return c06JSON(m)
+			}
+			twin := mk("{" + strings.Join(k.members, ",") + "}")
+			for fi, f := range fams {
+				if k.name != "join" && !c.Thorough() && (vi+fi)%4 != 0 {
+					continue
+				}
+				for pos := 0; pos < 3; pos++ {
+					if !c.Thorough() && pos != (vi+ki+fi)%3 && k.name != "join" {
+						continue
+					}
+					var all []string
+					switch pos {
+					case 0: // before the other members
+						all = append(append(all, f.members...), k.members...)
+					case 1: // after
+						all = append(append(all, k.members...), f.members...)
+					default: // the first before, the rest after
+						all = append(append(append(all, f.members[0]), k.members...), f.members[1:]...)
+					}
+					ev := mk("{" + strings.Join(all, ",") + "}")
+					if _, _, err := c06Parse(ver, ev, false); err != nil {
+						c.Count("skipped: event does not parse")
+						continue
+					}
+					for wi, valid := range valids {
+						if k.name != "join" && wi > 0 {
+							continue
+						}
+						args := [][]byte{B(ver), ev, twin, B("real"), B("ok")}
+						for _, s := range valid {
+							args = append(args, B(s))
+						}
+						c.Run("C06.verify_twin", args, "C06.verify_twin", "C06.prop.dup", fmt.Sprintf("dupvia v=%s kind=%s fam=%s pos=%d valid=%d", ver, k.name, f.name, pos, wi))
+						c.Count("dupvia/" + f.name)
+					}
+				}
+			}
+		}
+	}
 }
 
 // E. twins: the same well-formed event with one more content member under a name the specification
